@@ -738,10 +738,107 @@ def builder_api(case):
     return {"nontrivial": False, "classes": ["kind:" + kind, "evaluated:%s" % ev, "by-object:%s" % by_obj], "key": repr(case)}
 
 
+def _body_case(ch):
+    return {
+        "n": ch.int(2, 4),
+        "gate": ch.pick(["X", "R1", "N1", "U2"]),
+        "fault": ch.pick(["surplus-qubit", "surplus-number", "missing", "kind", "unknown-gate", "good", "good"]),
+        "place": ch.pick(["loop", "macro", "nested-loop", "top"]),
+        "with_let": ch.bool(),
+        "seed": ch.int(0, 10**6),
+    }
+
+
+def builder_body(case):
+    """A call with the wrong number or kind of arguments (or of an unknown gate) inside a block
+    that the object-oriented builder evaluates ON ITS OWN - the default for CircuitBuilder.loop()
+    and .macro() with a BlockBuilder body, where the native gate set is not yet in force - must
+    be refused at the latest when the circuit is run; circuits with and without lets alike.  The
+    valid twin runs."""
+    from jaqalpaq.core.circuitbuilder import CircuitBuilder, SequentialBlockBuilder
+    from jaqalpaq.emulator import run_jaqal_circuit
+
+    n, gname, fault, place = case["n"], case["gate"], case["fault"], case["place"]
+    if not (2 <= n <= 6) or gname not in ("X", "R1", "N1", "U2"):
+        raise Skip()
+    nat = gates.make_gates(1, idle=False, names=["X", "R1", "N1", "U2"])
+    kinds = gates.KINDS[gname]
+    cb = CircuitBuilder(native_gates=nat)
+    if case["with_let"]:
+        cb.let("unused", 3)
+    reg = cb.register("r", n)
+    ch = gen.Chooser(case["seed"])
+    qs = ch.sample(list(range(n)), 2)
+
+    def arg(k, j):
+        return reg[qs[j % 2]] if k == "q" else (0.25 if k == "f" else 2)
+
+    args = [arg(k, sum(1 for x in kinds[:i] if x == "q")) for i, k in enumerate(kinds)]
+    name = gname
+    if fault == "surplus-qubit":
+        args = args + [reg[[q for q in range(n) if q not in qs[: kinds.count("q")]][0]]] if n > kinds.count("q") else args + [0.5]
+    elif fault == "surplus-number":
+        args = args + [0.25]
+    elif fault == "missing":
+        args = args[:-1]
+    elif fault == "kind":
+        # a number where a qubit is expected / a qubit where a number is expected
+        i = ch.int(0, len(kinds) - 1)
+        args[i] = 0.5 if kinds[i] == "q" else reg[[q for q in range(n) if q not in qs[: kinds.count("q")]][0] if n > kinds.count("q") else qs[0]]
+    elif fault == "unknown-gate":
+        name = "X_not_native"
+    good = fault == "good"
+    desc = f"register r[{n}]; {name} {args!r} placed in {place}; with_let={case['with_let']}"
+
+    def make():
+        if place == "top":
+            cb.gate("prepare_all")
+            cb.gate(name, *args)
+            cb.gate("measure_all")
+        elif place == "loop":
+            cb.gate("prepare_all")
+            body = SequentialBlockBuilder()
+            body.gate(name, *args)
+            cb.loop(ch.int(1, 2), body)
+            cb.gate("measure_all")
+        elif place == "nested-loop":
+            cb.gate("prepare_all")
+            inner = SequentialBlockBuilder()
+            inner.gate(name, *args)
+            outer = SequentialBlockBuilder()
+            outer.loop(1, inner)
+            cb.loop(2, outer)
+            cb.gate("measure_all")
+        else:
+            body = SequentialBlockBuilder()
+            body.gate(name, *args)
+            cb.macro("flip", [], body)
+            cb.gate("prepare_all")
+            cb.gate("flip")
+            cb.gate("measure_all")
+        return cb.build()
+
+    st_, c = guard(make, what="CircuitBuilder")
+    stage = "build"
+    if st_ == "ok":
+        np.random.seed(3)
+        st_, res = guard(run_jaqal_circuit, c, what="run_jaqal_circuit")
+        stage = "run"
+    classes = ["fault:" + fault, "place:" + place, "with-let:%s" % case["with_let"]]
+    if good:
+        if st_ == "err":
+            raise Violation("valid-twin-rejected", f"{stage}: {c if stage == 'build' else res}\n{desc}", where="builder-body:" + place)
+        return {"nontrivial": False, "classes": classes, "key": repr(case)}
+    if st_ == "ok":
+        raise Violation("invalid-reference-executed", f"{desc}\nwas built and executed", where="builder-body:" + fault)
+    return {"nontrivial": True, "classes": classes + ["refused-at:" + stage], "key": repr(case)}
+
+
 def parts():
     return [
         Part("references", gen.cases(_ref_case), references, quick=5000, thorough=120000, min_nontrivial=0.3),
         Part("definitions", gen.cases(_def_case), definitions, quick=2000, thorough=40000, min_nontrivial=0.1),
         Part("precedence", None, precedence, quick=0, thorough=0, exhaustive=_prec_enum, shards=4),
         Part("builder-api", gen.cases(_builder_case), builder_api, quick=600, thorough=8000, min_nontrivial=0.3),
+        Part("builder-body", gen.cases(_body_case), builder_body, quick=600, thorough=8000, min_nontrivial=0.3),
     ]
